@@ -414,9 +414,7 @@ impl Monitor for M {
                 }
                 // a random filter configuration (empty / duplicate / over-long ids, extreme counts)
                 if ctx.rng.chance(1, 3) {
-                    let lvl = crate::filtergen::gen_level(&mut ctx.rng);
-                    let cfg = crate::filtergen::gen_filter(&mut ctx.rng, lvl);
-                    let pf: ProcessedDltFilterConfig = cfg.into();
+                    let (pf, _cfg_text) = crate::filtergen::gen_processed(&mut ctx.rng);
                     check_call(ctx, &inp.bytes, inp.wsh, Some(("random", &pf)), inp.class, "exact");
                 }
                 // one of the 16 largest declarable lengths, stored: 16 + LEN exceeds 65535
